@@ -241,6 +241,25 @@ fn patch_msm(rng: &mut Rng, p: &mut [u8], ns: usize, ng: usize) {
     }
     bits::write(p, layout::MSM_SAT_MASK_BIT, 64, sm as u128);
     bits::write(p, layout::MSM_SIG_MASK_BIT, 32, gm as u128);
+    // structured cell masks (random payload bits would make every special mask a 2^-64 event)
+    let ncell = ns * ng;
+    if ncell >= 1 && ncell <= 64 && p.len() * 8 >= layout::MSM_CELL_MASK_BIT + ncell {
+        let full: u64 = if ncell == 64 { u64::MAX } else { (1u64 << ncell) - 1 };
+        let cm: Option<u64> = match rng.below(12) {
+            0 => Some(full),
+            1 => Some(1),                       // only the last cell
+            2 => Some(1u64 << (ncell - 1)),     // only the first cell
+            3 => Some(0),                       // no cell at all
+            4 => Some(1u64 << rng.below(ncell as u64)),
+            5 => Some(full ^ (1u64 << rng.below(ncell as u64))),
+            6 => Some(0x5555_5555_5555_5555 & full),
+            7 => Some(full & !1),
+            _ => None,                          // keep the payload's own (random) bits
+        };
+        if let Some(cm) = cm {
+            bits::write(p, layout::MSM_CELL_MASK_BIT, ncell, cm as u128);
+        }
+    }
 }
 
 fn patch_bias(rng: &mut Rng, p: &mut [u8], n: u16) -> Hostile {
@@ -371,6 +390,12 @@ pub fn wire_frame(rng: &mut Rng, n: u16) -> (Vec<u8>, Hostile) {
                 let ng = rng.range(min_g.min(32) as i64, 32) as usize;
                 patch_msm(rng, &mut p, ns, ng);
                 h = if ns * ng > 64 { Hostile::MsmOver64 } else { Hostile::MsmValid };
+            }
+            4 => {
+                // exactly 64 cells in every factorisation
+                let (ns, ng) = *rng.pick(&[(64usize, 1usize), (32, 2), (16, 4), (8, 8), (4, 16), (2, 32)]);
+                patch_msm(rng, &mut p, ns, ng);
+                h = Hostile::MsmValid;
             }
             _ => {
                 let ng = rng.range(1, 8) as usize;
@@ -531,6 +556,35 @@ pub fn stream(rng: &mut Rng, max_len: usize) -> (Vec<u8>, u32) {
     }
     s.truncate(max_len);
     (s, tags)
+}
+
+/// A long stream (beyond 64 KiB, where 16-bit arithmetic on lengths would wrap): many valid
+/// frames with a little garbage in between; total length between 64 KiB and `max_len`.
+pub fn long_stream(rng: &mut Rng, max_len: usize) -> Vec<u8> {
+    let target = rng.range(65_000, max_len as i64) as usize;
+    let mut s: Vec<u8> = Vec::with_capacity(target + 1100);
+    while s.len() < target {
+        match rng.below(10) {
+            0 => {
+                let g = rng.usize_below(20);
+                s.extend(rng.bytes(g));
+            }
+            1 => s.push(0xD3),
+            _ => {
+                let l = pick_len(rng);
+                let p = rng.bytes(l);
+                s.extend(crc::frame(&p));
+            }
+        }
+    }
+    // land the end of the stream near interesting residues of 65536 as well
+    if rng.bool() {
+        let want = 65_536 * rng.range(1, (max_len / 65_536).max(1) as i64) as usize + rng.usize_below(1100);
+        if want <= s.len() {
+            s.truncate(want);
+        }
+    }
+    s
 }
 
 fn pick_len(rng: &mut Rng) -> usize {
